@@ -6,7 +6,7 @@ import hexlib
 from common import hx
 
 ID = "C01"
-LEAN_IMPORTS = ["PyTrie.Props.C01", "PyTrie.Props.C01World"]
+LEAN_IMPORTS = ["PyTrie.Props.C01", "PyTrie.Props.C01World", "PyTrie.Props.RawLevel"]
 THEOREMS = [
     "PyTrie.Props.C01.get_set",
     "PyTrie.Props.C01.get_delete",
@@ -19,6 +19,9 @@ THEOREMS = [
     "PyTrie.Props.C01.world_tree",
     "PyTrie.Props.C01.world_progress",
     "PyTrie.Props.C01.world_get",
+    "PyTrie.Props.Raw.set_refines",
+    "PyTrie.Props.Raw.delete_refines",
+    "PyTrie.Props.Raw.keccak_is_std",
 ]
 RULE = ("histories of set/setitem/set-to-empty/delete/delitem and squash_changes batches (committed and aborted) "
         "over crafted and random prefix-sharing key universes (empty key, prefixes, extensions, mid-path "
